@@ -494,7 +494,8 @@ NUMBERS = [
 
 WS = [" ", " ", "  ", "\n", "\t", "\r\n", "\n\n", " \n ", "\x0c", "\x0b", "\r"]
 WS_INLINE = ["", " ", "  ", "\t"]
-CMT_TEXT = ["", " c", " (", ' "', " #[[", "; x", " '", " {", "\\", " é", " ]"]
+# (a lone CR does not end a line for the reader, so it does not end a comment either: the rest of the line stays comment text)
+CMT_TEXT = ["", " c", " (", ' "', " #[[", "; x", " '", " {", "\\", " é", " ]", " first\rsecond (", "\r x", " a\r\""]
 GEN_SYM_ALPHABET = "abgkxyzλ_!$%&*+-/<=>?@^|:#019"
 DOT_PARTS = ["a", "b", "foo", "x?", "foo-bar", "_", "λ", "a1", "e5", "j"]
 PLAIN_PIECES = [["a", "a"], ["b c", "b c"], [" ", " "], ["'", "'"], [";", ";"], ["(", "("], [")", ")"], ["#", "#"],
